@@ -28,12 +28,12 @@ import (
 	"github.com/gogo/protobuf/proto"
 	"github.com/pingcap/kvproto/pkg/encryptionpb"
 	"github.com/pingcap/kvproto/pkg/metapb"
-	"github.com/tikv/pd/pkg/etcdutil"
 	"github.com/tikv/pd/server/core"
+	"github.com/tikv/pd/server/encryptionkm"
 	"github.com/tikv/pd/server/kv"
 	"go.etcd.io/etcd/clientv3"
-	"go.etcd.io/etcd/embed"
 	"pdverif/vkit"
+	"pdverif/vkit/etcdfix"
 	"pdverif/vkit/faultkv"
 	"pgregory.net/rapid"
 )
@@ -46,15 +46,9 @@ const keyMaxID = "C17/load-id-maxuint64"
 // removed from storage while one stays in the cache.
 const keyRetry = "C17/retry-after-failed-overlap-delete"
 
-func TestMain(m *testing.M) { vkit.Main(m, "C17") }
-func TestProp(t *testing.T) {
-	defer stopEtcd()
-	vkit.RunAll(t)
-}
-func TestReplay(t *testing.T) {
-	defer stopEtcd()
-	vkit.RunReplay(t)
-}
+func TestMain(m *testing.M)   { vkit.MainWith(m, "C17", encCleanup) }
+func TestProp(t *testing.T)   { vkit.RunAll(t) }
+func TestReplay(t *testing.T) { vkit.RunReplay(t) }
 
 func init() {
 	vkit.Register("stores", vkit.N{Quick: 600, Thorough: 14000}, genStoreCase, runStoreCase)
@@ -157,9 +151,10 @@ func genIDs(t *rapid.T, pool int, small bool) (IDSpec, bool) {
 // ---------------------------------------------------------------- stores: case
 
 type SBody struct {
-	A  int `json:"a"`  // address variant
-	St int `json:"st"` // state
-	NL int `json:"nl"` // number of labels
+	A    int `json:"a"`              // address variant
+	St   int `json:"st"`             // state
+	NL   int `json:"nl"`             // number of labels
+	Same int `json:"same,omitempty"` // overwrite: 1 = save the very object handed to pd last time again
 }
 
 type SOp struct {
@@ -212,7 +207,8 @@ func genStoreCase(t *rapid.T) SCase {
 		op.Pick = rapid.IntRange(0, 1000).Draw(t, "pick")
 		switch op.K {
 		case "new", "over":
-			op.B = SBody{A: rapid.IntRange(0, 9).Draw(t, "a"), St: rapid.IntRange(0, 2).Draw(t, "st"), NL: rapid.IntRange(0, 3).Draw(t, "nl")}
+			op.B = SBody{A: rapid.IntRange(0, 9).Draw(t, "a"), St: rapid.IntRange(0, 2).Draw(t, "st"), NL: rapid.IntRange(0, 3).Draw(t, "nl"),
+				Same: pick(t, "same", []int{0, 0, 1})}
 			if op.K == "new" {
 				news++
 			}
@@ -281,17 +277,29 @@ func runStoreCase(c SCase) (info vkit.Info, err error) {
 	nextPool, seq := 0, 0
 	multiPage, hasTop := false, false
 
+	// heldS: the objects handed to SaveStore (pd's cache owns them); the model keeps its own copies
+	heldS := map[uint64]*metapb.Store{}
+	saveStore := func(obj *metapb.Store) error {
+		want := proto.Clone(obj).(*metapb.Store)
+		if err := st.SaveStore(obj); err != nil {
+			return err
+		}
+		if !proto.Equal(obj, want) {
+			return fmt.Errorf("SaveStore modified the caller's store object: before %v, after %v", want, obj)
+		}
+		live[want.GetId()] = want
+		heldS[want.GetId()] = obj
+		return nil
+	}
 	saveNew := func(b SBody) (uint64, error) {
 		id, ok := c.IDs.id(nextPool)
 		if !ok {
 			return 0, nil
 		}
 		seq++
-		m := buildStore(id, seq, b)
-		if err := st.SaveStore(m); err != nil {
+		if err := saveStore(buildStore(id, seq, b)); err != nil {
 			return 0, err
 		}
-		live[id] = m
 		liveIdx = append(liveIdx, nextPool)
 		nextPool++
 		if isTop(id) {
@@ -378,12 +386,20 @@ func runStoreCase(c SCase) (info vkit.Info, err error) {
 				continue
 			}
 			id, _ := c.IDs.id(liveIdx[op.Pick%len(liveIdx)])
-			seq++
-			m := buildStore(id, seq, op.B)
-			if err := st.SaveStore(m); err != nil {
-				return info, fmt.Errorf("op %d: %v", i, err)
+			if h := heldS[id]; op.B.Same == 1 && h != nil {
+				if !proto.Equal(h, live[id]) {
+					return info, fmt.Errorf("op %d: the store object handed to SaveStore earlier has been modified: saved as %v, now %v", i, live[id], h)
+				}
+				if err := saveStore(h); err != nil {
+					return info, fmt.Errorf("op %d: %v", i, err)
+				}
+				info.Class("resave-same-object")
+			} else {
+				seq++
+				if err := saveStore(buildStore(id, seq, op.B)); err != nil {
+					return info, fmt.Errorf("op %d: %v", i, err)
+				}
 			}
-			live[id] = m
 			info.Class("overwrite")
 		case "del":
 			if len(liveIdx) == 0 {
@@ -391,10 +407,11 @@ func runStoreCase(c SCase) (info vkit.Info, err error) {
 			}
 			k := op.Pick % len(liveIdx)
 			id, _ := c.IDs.id(liveIdx[k])
-			if err := st.DeleteStore(live[id]); err != nil {
+			if err := st.DeleteStore(&metapb.Store{Id: id}); err != nil {
 				return info, fmt.Errorf("op %d: %v", i, err)
 			}
 			delete(live, id)
+			delete(heldS, id)
 			liveIdx = append(liveIdx[:k:k], liveIdx[k+1:]...)
 			info.Class("delete")
 		case "weight":
@@ -431,6 +448,7 @@ type RBody struct {
 	C    uint64 `json:"c"`    // epoch conf_ver
 	P    int    `json:"p"`    // peers
 	Keep bool   `json:"keep,omitempty"`
+	Same int    `json:"same,omitempty"` // overwrite: 1 = re-save the very object that was handed to pd last time, unchanged; 2 = a clone of that object with conf_ver+1
 }
 
 type ROp struct {
@@ -455,6 +473,7 @@ type RCase struct {
 	BudgetW int       `json:"budgetw,omitempty"` // budget = heaviest window of this many consecutive items
 	Slack   int       `json:"slack,omitempty"`
 	Prune   bool      `json:"prune,omitempty"`
+	Enc     int       `json:"enc,omitempty"` // encryption at rest: 0 off, 1..3 aes128/192/256-ctr
 	Load    LoadPlan  `json:"load"`
 	ExclMax bool      `json:"exclmax,omitempty"`
 }
@@ -508,6 +527,7 @@ func genRBody(t *rapid.T, slots int) RBody {
 		C:    uint64(rapid.IntRange(1, 3).Draw(t, "c")),
 		P:    rapid.IntRange(1, 3).Draw(t, "p"),
 		Keep: rapid.Bool().Draw(t, "keep"),
+		Same: pick(t, "same", []int{0, 0, 1, 2}),
 	}
 }
 
@@ -587,6 +607,7 @@ func genRegionCase(t *rapid.T) RCase {
 		}
 		c.Big = append(c.Big, BigSlot{Slot: slot, Pad: pick(t, "latePad", []int{20000, 40000})})
 	}
+	c.Enc = pick(t, "enc", []int{0, 0, 0, 1, 2, 3})
 	c.Prune = rapid.IntRange(0, 3).Draw(t, "prune") != 0
 	if c.Prune {
 		c.Load = genLoadPlan(t, c.Backend)
@@ -607,6 +628,7 @@ func genBulkCase(t *rapid.T) RCase {
 	genBig(t, &c)
 	news := genROps(t, &c, 6)
 	c.IDs, c.ExclMax = genIDs(t, c.N+news, false)
+	c.Enc = pick(t, "enc", []int{0, 0, 1, 3})
 	c.Prune = rapid.Bool().Draw(t, "prune")
 	if c.Prune {
 		c.Load = genLoadPlan(t, c.Backend)
@@ -666,6 +688,7 @@ func buildRegion(c *RCase, id uint64, seq int, b RBody) *metapb.Region {
 }
 
 type rfix struct {
+	km      *encryptionkm.KeyManager
 	backend string
 	fk      *faultkv.KV
 	rs      *core.RegionStorage
@@ -685,7 +708,7 @@ func (f *rfix) openRS() error {
 	// are explicit operations of the history, so that the case stays a pure
 	// function of its data.
 	ctx, cancel := context.WithCancel(context.Background())
-	rs, err := core.NewRegionStorage(ctx, f.dir, nil)
+	rs, err := core.NewRegionStorage(ctx, f.dir, f.km)
 	cancel()
 	if err != nil {
 		return err
@@ -698,11 +721,11 @@ func (f *rfix) openRS() error {
 // for the "regions loaded once" flag, which must be new for every LoadRegionsOnce).
 func (f *rfix) storage() *core.Storage {
 	if f.backend == "leveldb" {
-		st := core.NewStorage(f.fk, core.WithRegionStorage(f.rs))
+		st := core.NewStorage(f.fk, core.WithRegionStorage(f.rs), core.WithEncryptionKeyManager(f.km))
 		st.SwitchToRegionStorage()
 		return st
 	}
-	return core.NewStorage(f.fk)
+	return core.NewStorage(f.fk, core.WithEncryptionKeyManager(f.km))
 }
 
 func (f *rfix) cleanup() {
@@ -787,6 +810,13 @@ func sortedIDs(m map[uint64]*metapb.Region) []uint64 {
 	return ids
 }
 
+func cutb(b []byte) []byte {
+	if len(b) > 16 {
+		return b[:16]
+	}
+	return b
+}
+
 func short(r *metapb.Region) string {
 	if r == nil {
 		return "<nil>"
@@ -813,6 +843,20 @@ func runRegionCase(c RCase) (info vkit.Info, err error) {
 	}
 	f := &rfix{backend: c.Backend}
 	defer f.cleanup()
+	if c.Enc > 0 {
+		enc := c.Enc
+		if enc > 3 {
+			enc = 3
+		}
+		km, e := keyManager(enc)
+		if e != nil || km == nil {
+			info.Inconclusive = true
+			info.Class("key-manager-unavailable")
+			return info, nil
+		}
+		f.km = km
+		info.Class("encryption=" + encMethods[enc])
+	}
 	switch c.Backend {
 	case "mem", "budget", "leveldb":
 		f.fk = faultkv.New(kv.NewMemoryKV())
@@ -858,6 +902,7 @@ func runRegionCase(c RCase) (info vkit.Info, err error) {
 		return -1
 	}
 	poolOf := map[uint64]int{} // id -> pool index
+	held := map[uint64]*metapb.Region{}
 	// promote: an unacknowledged save turned out durable: it is the current version now
 	promote := func(id uint64, r *metapb.Region) {
 		if _, wasLive := m.live[id]; !wasLive {
@@ -870,6 +915,7 @@ func runRegionCase(c RCase) (info vkit.Info, err error) {
 		m.live[id] = r
 		m.disk[id] = r
 		delete(m.doubt, id)
+		delete(held, id)
 	}
 	// breakDB makes every leveldb write fail (the handle is closed underneath);
 	// healDB installs a working handle on the same directory.
@@ -882,15 +928,44 @@ func runRegionCase(c RCase) (info vkit.Info, err error) {
 		f.rs.LeveldbKV = h
 		return nil
 	}
-	save := func(id uint64, b RBody) error {
-		seq++
-		r := buildRegion(&c, id, seq, b)
-		if e := st.SaveRegion(r); e != nil {
+	// held: the object handed to pd by the last acknowledged SaveRegion of an id (pd's
+	// cache owns such objects and saves them again); the model keeps its own copies and
+	// never compares a load with an object pd has seen.
+	// saveObj hands obj to SaveRegion. want is the model's own copy of the same content,
+	// made before the call. Saving is read-only for the caller.
+	saveObj := func(obj, want *metapb.Region) error {
+		id := want.GetId()
+		if !proto.Equal(obj, want) {
+			return fmt.Errorf("harness: object to save %s differs from the model copy %s before the call", short(obj), short(want))
+		}
+		if e := st.SaveRegion(obj); e != nil {
 			return e
 		}
-		m.save(r)
+		if !proto.Equal(obj, want) {
+			return fmt.Errorf("SaveRegion modified the caller's region object: before the call %s, after it %s (keys %x|%x -> %x|%x)", short(want), short(obj), cutb(want.StartKey), cutb(want.EndKey), cutb(obj.StartKey), cutb(obj.EndKey))
+		}
+		m.save(want)
+		held[id] = obj
 		if isTop(id) {
 			hasTop = true
+		}
+		return nil
+	}
+	save := func(id uint64, b RBody) error {
+		seq++
+		obj := buildRegion(&c, id, seq, b)
+		return saveObj(obj, proto.Clone(obj).(*metapb.Region))
+	}
+	// checkHeld: after a flush / close the objects pd was given are still what they were
+	checkHeld := func(when string) error {
+		for _, id := range sortedIDs(held) {
+			want, ok := m.live[id]
+			if !ok {
+				continue
+			}
+			if !proto.Equal(held[id], want) {
+				return fmt.Errorf("%s: the region object handed to SaveRegion earlier has been modified: saved as %s, now %s (keys %x|%x -> %x|%x)", when, short(want), short(held[id]), cutb(want.StartKey), cutb(want.EndKey), cutb(held[id].StartKey), cutb(held[id].EndKey))
+			}
 		}
 		return nil
 	}
@@ -1049,6 +1124,9 @@ func runRegionCase(c RCase) (info vkit.Info, err error) {
 				return fmt.Errorf("%s: flush failed: %v", when, e)
 			}
 			m.flush()
+			if e := checkHeld(when); e != nil {
+				return e
+			}
 		}
 		return check(when)
 	}
@@ -1094,21 +1172,35 @@ func runRegionCase(c RCase) (info vkit.Info, err error) {
 			}
 			id, _ := c.IDs.id(liveIdx[op.Pick%len(liveIdx)])
 			b := op.B
-			if b.Keep {
-				// conf change: same range and version, conf_ver + 1
-				old := m.live[id]
+			h := held[id]
+			var e error
+			switch {
+			case b.Same == 1 && h != nil:
+				// the very object pd was given last time is saved again, unchanged
+				e = saveObj(h, proto.Clone(m.live[id]).(*metapb.Region))
+				info.Class("resave-same-object")
+			case b.Same == 2 && h != nil:
+				// a clone of the object pd was given, conf_ver + 1 (what the cache does on a conf change)
+				obj := proto.Clone(h).(*metapb.Region)
+				obj.RegionEpoch.ConfVer++
+				want := proto.Clone(m.live[id]).(*metapb.Region)
+				want.RegionEpoch.ConfVer++
+				e = saveObj(obj, want)
+				info.Class("resave-clone-of-saved-object")
+			case b.Keep:
+				// conf change: same range and version, conf_ver + 1, new peers
 				seq++
-				r := proto.Clone(old).(*metapb.Region)
-				r.RegionEpoch.ConfVer++
-				r.Peers = nil
+				want := proto.Clone(m.live[id]).(*metapb.Region)
+				want.RegionEpoch.ConfVer++
+				want.Peers = nil
 				for k := 0; k < b.P || k < 1; k++ {
-					r.Peers = append(r.Peers, &metapb.Peer{Id: uint64(seq)*8 + uint64(k) + 1, StoreId: uint64(k) + 1})
+					want.Peers = append(want.Peers, &metapb.Peer{Id: uint64(seq)*8 + uint64(k) + 1, StoreId: uint64(k) + 1})
 				}
-				if e := st.SaveRegion(r); e != nil {
-					return info, fmt.Errorf("op %d: %v", i, e)
-				}
-				m.save(r)
-			} else if e := save(id, b); e != nil {
+				e = saveObj(proto.Clone(want).(*metapb.Region), want)
+			default:
+				e = save(id, b)
+			}
+			if e != nil {
 				return info, fmt.Errorf("op %d: %v", i, e)
 			}
 			info.Class("overwrite")
@@ -1119,9 +1211,10 @@ func runRegionCase(c RCase) (info vkit.Info, err error) {
 			// counted from the most recent save: small picks hit items whose save is still unflushed
 			k := len(liveIdx) - 1 - op.Pick%len(liveIdx)
 			id, _ := c.IDs.id(liveIdx[k])
-			if e := st.DeleteRegion(m.live[id]); e != nil {
+			if e := st.DeleteRegion(&metapb.Region{Id: id}); e != nil {
 				return info, fmt.Errorf("op %d: %v", i, e)
 			}
+			delete(held, id)
 			if _, unflushed := m.batch[id]; unflushed {
 				info.Class("delete-while-unflushed")
 			}
@@ -1171,6 +1264,10 @@ func runRegionCase(c RCase) (info vkit.Info, err error) {
 			}
 			f.rs = nil
 			m.flush()
+			if e := checkHeld(when + ", after Close"); e != nil {
+				return info, e
+			}
+			held = map[uint64]*metapb.Region{} // the process is gone, so is its cache
 			if e := f.openRS(); e != nil {
 				return info, fmt.Errorf("op %d: reopen failed: %v", i, e)
 			}
@@ -1190,6 +1287,7 @@ func runRegionCase(c RCase) (info vkit.Info, err error) {
 			f.rs = nil
 			m.batch = map[uint64]*metapb.Region{}
 			m.doubt = map[uint64]*metapb.Region{}
+			held = map[uint64]*metapb.Region{}
 			m.cnt = 0
 			// after the restart the durable content is what the server knows: an item
 			// is absent or holds the version of its last flushed save
@@ -1254,11 +1352,18 @@ func runRegionCase(c RCase) (info vkit.Info, err error) {
 				r := proto.Clone(old).(*metapb.Region)
 				r.RegionEpoch.ConfVer++
 				r.Peers = []*metapb.Peer{{Id: uint64(seq)*8 + 1, StoreId: 1}}
-				if e := st.SaveRegion(r); e != nil {
+				obj := proto.Clone(r).(*metapb.Region)
+				e := st.SaveRegion(obj)
+				if !proto.Equal(obj, r) {
+					return info, fmt.Errorf("op %d: SaveRegion (returned %v) modified the caller's region object: before %s, after %s", i, e, short(r), short(obj))
+				}
+				if e != nil {
 					m.saveFailed(r)
 					failed++
+					delete(held, id)
 				} else {
 					m.save(r)
+					held[id] = obj
 				}
 			}
 			if e := healDB(); e != nil {
@@ -1561,7 +1666,7 @@ func dedupe(info *vkit.Info) {
 // caseDigest makes samples of big cases distinct without storing them.
 func caseDigest(c *RCase) string {
 	var b bytes.Buffer
-	fmt.Fprintf(&b, "%v|%d|%d|%v|%v|%d|%d|%v|%v|%v", c.IDs, c.N, c.Slots, c.VMixed, c.Big, c.BudgetW, c.Slack, c.Prune, c.Ops, c.Load)
+	fmt.Fprintf(&b, "%v|%d|%d|%v|%v|%d|%d|%v|%v|%v|%d", c.IDs, c.N, c.Slots, c.VMixed, c.Big, c.BudgetW, c.Slack, c.Prune, c.Ops, c.Load, c.Enc)
 	h := uint64(14695981039346656037)
 	for _, x := range b.Bytes() {
 		h ^= uint64(x)
@@ -1710,69 +1815,18 @@ func checkPruned(pre, post []*metapb.Region, bc *core.BasicCluster) error {
 	return nil
 }
 
-// ---------------------------------------------------------------- etcd (thorough tier only)
+// ---------------------------------------------------------------- etcd (per-process fixture of vkit/etcdfix)
 
-var (
-	etcdMu   sync.Mutex
-	etcdSrv  *embed.Etcd
-	etcdCl   *clientv3.Client
-	etcdErr  error
-	etcdDir  string
-	rootCtr  int64
-	etcdInit bool
-)
+var rootCtr int64
 
 func nextRoot() string { return fmt.Sprintf("/c17/%d", atomic.AddInt64(&rootCtr, 1)) }
 
 func getEtcd() (*clientv3.Client, error) {
-	etcdMu.Lock()
-	defer etcdMu.Unlock()
-	if etcdInit {
-		return etcdCl, etcdErr
-	}
-	etcdInit = true
-	cfg := etcdutil.NewTestSingleConfig()
-	etcdDir = cfg.Dir
-	cfg.LogOutputs = []string{"/dev/null"}
-	cfg.LogLevel = "error"
-	srv, err := embed.StartEtcd(cfg)
+	f, err := etcdfix.Get()
 	if err != nil {
-		etcdErr = err
 		return nil, err
 	}
-	select {
-	case <-srv.Server.ReadyNotify():
-	case <-time.After(30 * time.Second):
-		srv.Close()
-		etcdErr = fmt.Errorf("embedded etcd not ready after 30s")
-		return nil, etcdErr
-	}
-	cl, err := clientv3.New(clientv3.Config{Endpoints: []string{cfg.LCUrls[0].String()}, DialTimeout: 5 * time.Second})
-	if err != nil {
-		srv.Close()
-		etcdErr = err
-		return nil, err
-	}
-	etcdSrv, etcdCl = srv, cl
-	return cl, nil
-}
-
-func stopEtcd() {
-	etcdMu.Lock()
-	defer etcdMu.Unlock()
-	if etcdCl != nil {
-		etcdCl.Close()
-		etcdCl = nil
-	}
-	if etcdSrv != nil {
-		etcdSrv.Close()
-		etcdSrv = nil
-	}
-	if etcdDir != "" {
-		os.RemoveAll(etcdDir)
-		etcdDir = ""
-	}
-	etcdInit = false
+	return f.Raw, nil
 }
 
 // ---------------------------------------------------------------- known finding probes
